@@ -481,7 +481,7 @@ def check_pese(rep, prog):
     u = prog.units[U_PESE]
     need(u, ['upipe_ts_pese_work'])
     fn = u.funcs['upipe_ts_pese_work']
-    rep.rule('R-pese', 'upipe_ts_pese_work on every stream id class x timestamp combination x minimal header size x 1..3 pending access units: the first '
+    rep.rule('R-pese', 'upipe_ts_pese_work on every stream id class x timestamp combination x minimal header size x 1..3 pending access units, with PES sizes small, 70000, and at the 16-bit boundary of PES_packet_length (largest that fits, one more, payload of 65535): the first '
              'unit is output with the reference PES header (as R-build-pes) prepended to its unchanged payload and the unit-start flag, the other units '
              'follow unchanged and in order, nothing is left pending, nothing is leaked or freed')
     R = Runner(rep, 'R-pese')
@@ -489,14 +489,19 @@ def check_pese(rep, prog):
         for min_hdr in (0, 9, 14, 19, 25):
             if pes_id == 0xbf and min_hdr > 6:
                 continue
-            for ptsk, nunits, big in itertools.product(('none', 'pts', 'same', 'diff'), (1, 2, 3), (0, 1)):
+            for ptsk, nunits, big in itertools.product(('none', 'pts', 'same', 'diff'), (1, 2, 3), (0, 1, 'fits', 'over', 'payload-max')):
+                if big not in (0, 1) and nunits != 1:
+                    continue
                 pts = None if ptsk == 'none' else PTS_PROG
                 dts = None if ptsk in ('none', 'pts') else (PTS_PROG - 50 if ptsk == 'same' else PTS_PROG - 300 * 3003)
                 exp_dts = dts if ptsk == 'diff' else None
                 sizes = [5, 3, 4][:nunits]
-                total = sum(sizes) + (70000 if big else 0)      # the size field, not the ghost payload, carries the big case
+                _, hs0 = expected_pes_header(pes_id, min_hdr, 0, 1, pts, exp_dts, 0)
+                # the size field, not the ghost payload, carries the big cases: 70000; the largest payload whose PES_packet_length
+                # (payload + header - 6) still fits 16 bits; one more; and a payload of 65535 octets itself
+                total = {0: sum(sizes), 1: sum(sizes) + 70000, 'fits': 65535 - (hs0 - 6), 'over': 65535 - (hs0 - 6) + 1, 'payload-max': 65535}[big]
                 want, hs = expected_pes_header(pes_id, min_hdr, total, 1, pts, exp_dts, 0)
-                inst = 'id=%02x,min=%d,ts=%s,units=%d,big=%d' % (pes_id, min_hdr, ptsk, nunits, big)
+                inst = 'id=%02x,min=%d,ts=%s,units=%d,big=%s' % (pes_id, min_hdr, ptsk, nunits, big)
 
                 def mk(pes_id=pes_id, min_hdr=min_hdr, pts=pts, dts=dts, sizes=sizes, total=total):
                     m = ghost.BlockMachine(prog, u, 'upipe_ts_pese', {'pes_id': pes_id, 'pes_header_size': min_hdr, 'next_pes_size': total,
